@@ -470,6 +470,7 @@ func (x *Exec) step(cfg *Config, f *Frame, in ssa.Instruction) (forks []*Config,
 		if isStructType(el) {
 			r := x.alloc(st, typeName(el))
 			x.storeStruct(st, r, el, x.zeroOf(el).(SV))
+			x.ghostInit(cfg, el, r)
 			f.regs[i] = TV{T: r}
 		} else if at, isArr := el.Underlying().(*types.Array); isArr {
 			if isStructType(at.Elem()) {
@@ -704,6 +705,10 @@ func (x *Exec) load(cfg *Config, ptr Val, elem types.Type, pos token.Pos) Val {
 		}
 		arr := x.heapGet(st, a.Arr, SArr(SInt, SArr(x.idxSort(), x.sortOf(elem))))
 		t = Select(Select(arr, a.Base), a.Idx)
+		if a.Slice.S != "" {
+			// the same element as seen by specifications (trigger term)
+			st.assume(Eq(x.sliceElem(st, a.Slice, a.SIdx, elem), t))
+		}
 	default:
 		if _, isTV := ptr.(TV); isTV {
 			x.nilcheck(cfg, a.Base, "pointer load", pos)
@@ -825,6 +830,40 @@ func (x *Exec) store(cfg *Config, ptr Val, v Val, vt types.Type) {
 		x.storeInFrame(cfg, a.Arr, a.Base)
 		arr := x.heapGet(st, a.Arr, SArr(SInt, x.sortOf(vt)))
 		st.heap[a.Arr] = Store(arr, a.Base, val)
+	}
+}
+
+// ghostInit applies "ghostinit S.f(self) = expr" declarations to a freshly
+// allocated object (and to structs embedded in it).
+func (x *Exec) ghostInit(cfg *Config, styp types.Type, ref Term) {
+	s, ok := styp.Underlying().(*types.Struct)
+	if !ok {
+		return
+	}
+	for i := 0; i < s.NumFields(); i++ {
+		if isStructType(s.Field(i).Type()) {
+			x.ghostInit(cfg, s.Field(i).Type(), x.subRef(styp, i, ref))
+		}
+	}
+	tn := typeName(styp)
+	for _, cf := range x.P.Contracts {
+		for _, raw := range cf.Raw["ghostinit"] {
+			eq := strings.Index(raw, " = ")
+			if eq < 0 {
+				continue
+			}
+			st, fl, v, ok := parseHead(raw[:eq])
+			if !ok || (cf.Pkg+"."+st != tn && st != tn) {
+				continue
+			}
+			cl, err := parseClause("ghostset", nil, v+"."+fl+" == ("+raw[eq+3:]+")", 0)
+			if err != nil {
+				unsupported("ghostinit: %v", err)
+			}
+			env := &SpecEnv{x: x, cfg: cfg, st: cfg.st, old: cfg.st, vars: map[string]SpecVal{}, pkg: x.pkgOf(cf.Pkg), cf: cf}
+			env.vars[v] = SpecVal{T: ref, Ty: types.NewPointer(styp)}
+			x.applyGhostSetIn(cfg, env, cl, cfg.st)
+		}
 	}
 }
 
@@ -1162,7 +1201,77 @@ func (x *Exec) typeTag(t types.Type) Term {
 	if _, ok := typeTags[name]; !ok {
 		typeTags[name] = int64(len(typeTags) + 1)
 	}
-	return IntLit(typeTags[name])
+	tag := IntLit(typeTags[name])
+	if x.taggedTypes == nil {
+		x.taggedTypes = map[string]types.Type{}
+	}
+	if _, seen := x.taggedTypes[name]; !seen {
+		x.taggedTypes[name] = t
+		for _, ip := range x.implPreds {
+			x.implFact(ip, t, tag)
+		}
+	}
+	return tag
+}
+
+// implPred is an "implements" predicate over dynamic type tags: for concrete
+// types known to the analysis its value is a fact of the type checker.
+type implPred struct {
+	fn  func(...Term) Term
+	sig string // method signature list as produced by ifaceSig
+}
+
+func (x *Exec) implementsFn(name, sig string) func(...Term) Term {
+	fn := x.d.Fun(name, []Sort{SInt}, SBool)
+	for _, ip := range x.implPreds {
+		if ip.sig == sig && ip.fn != nil && fmt.Sprint(name) == ip.name {
+			return fn
+		}
+	}
+	ip := implPred2{implPred{fn, sig}, name}
+	x.implPreds = append(x.implPreds, ip)
+	for tn, t := range x.taggedTypes {
+		x.implFact(ip, t, IntLit(typeTags[tn]))
+	}
+	return fn
+}
+
+type implPred2 struct {
+	implPred
+	name string
+}
+
+// implFact states whether concrete type t has all methods of the signature list.
+func (x *Exec) implFact(ip implPred2, t types.Type, tag Term) {
+	if _, isIface := t.Underlying().(*types.Interface); isIface {
+		return
+	}
+	if _, isTP := t.(*types.TypeParam); isTP {
+		return
+	}
+	ms := types.NewMethodSet(t)
+	all := true
+	for _, want := range strings.Split(ip.sig, ";") {
+		if want == "" {
+			continue
+		}
+		found := false
+		for i := 0; i < ms.Len(); i++ {
+			m := ms.At(i).Obj()
+			got := m.Name() + strings.ReplaceAll(strings.TrimPrefix(m.Type().String(), "func"), " ", "")
+			if got == want {
+				found = true
+			}
+		}
+		if !found {
+			all = false
+		}
+	}
+	if all {
+		x.d.Axiom(ip.fn(tag))
+	} else {
+		x.d.Axiom(Not(ip.fn(tag)))
+	}
 }
 
 func (x *Exec) makeInterface(st *State, v Val, from types.Type) Val {
@@ -1231,7 +1340,7 @@ func (x *Exec) typeAssert(cfg *Config, f *Frame, i *ssa.TypeAssert) (forks []*Co
 				holds = False
 			}
 		} else {
-			impl := x.d.Fun("implements!"+typeName(i.AssertedType)+"!"+ifaceSig(i.AssertedType), []Sort{SInt}, SBool)
+			impl := x.implementsFn("implements!"+typeName(i.AssertedType)+"!"+ifaceSig(i.AssertedType), ifaceSig(i.AssertedType))
 			holds = And(Neq(v.T, IntLit(0)), impl(x.dynTypeFn()(v.T)))
 		}
 	} else {
